@@ -1,6 +1,8 @@
 import RustCcModel.Model.Machine
 import RustCcModel.Proofs.TraceFlagEv
 import RustCcModel.Proofs.NoNesting
+import RustCcModel.Proofs.CallbackFlags
+import RustCcModel.Proofs.NoFin
 /-! # C12 — collector phases are observable and collections never nest
 
 Step-level facts of the machine (the global part — "idle ⇒ all flags false", which makes
@@ -103,5 +105,46 @@ theorem collections_never_nest (c : Cfg) (nH nW nK : Nat) (w : World) (h : Reach
 
 /-- Non-vacuity: a script frame is not a collector frame, a pass frame is. -/
 example : (Frame.script [.collect] (some 0) none false).quiet = false ∧ Frame.collectPass.quiet = true := ⟨rfl, rfl⟩
+
+/-! ### The last sentence, for every reachable world (`Proofs/CallbackFlags.lean`, `Proofs/NoFin.lean`)
+
+A script running on an object `x` (`self = some x`) is `x`'s finalizer or destructor. `W` below is the world in which the
+machine executes the script's next operation (the rest of the script pushed back). -/
+
+/-- **Inside every finalizer and destructor a phase flag is up** — whatever started it (a collection, a plain drop, a
+collection nested in either), after any history with caught panics. -/
+theorem flag_up_inside_callbacks (c : Cfg) (nH nW nK : Nat) (w : World) (h : Reachable c nH nW nK w)
+    (ops : List Op) (x : Id) (wc : Option Id) (top : Bool) (rest : List Frame)
+    (hs : w.stack = .script ops (some x) wc top :: rest) :
+    w.collecting = true ∨ w.finalizing = true ∨ w.dropping = true :=
+  callback_flag_up c nH nW nK w h ops x wc top rest hs
+
+/-- **From inside any finalizer or destructor `try_unwrap` returns `Err` and changes nothing** — every reachable world, with
+and without the `finalization` feature. -/
+theorem unwrap_err_inside_callbacks (c : Cfg) (nH nW nK : Nat) (w : World) (h : Reachable c nH nW nK w)
+    (k : Nat) (ops : List Op) (x y : Id) (wc : Option Id) (top : Bool) (rest : List Frame)
+    (hs : w.stack = .script (.unwrap k :: ops) (some x) wc top :: rest) (hk : w.getH k = some y) :
+    let W := ({ w with stack := rest } : World).push (.script ops (some x) wc top)
+    execOp c W (some x) wc (.unwrap k) = { W with ret := .err } := by
+  intro W
+  have hfl := callback_flag_up c nH nW nK w h _ x wc top rest hs
+  refine unwrap_err_in_callbacks c W (some x) wc k y hk ?_
+  rcases hfl with h1 | h1 | h1
+  · exact Or.inl h1
+  · cases hc : c.fin with
+    | true => exact Or.inr (Or.inr ⟨rfl, h1⟩)
+    | false => rw [reachable_nFin hc h] at h1; cases h1
+  · exact Or.inr (Or.inl h1)
+
+/-- **From inside any finalizer or destructor `finalize_again` panics**, leaving every object unchanged (the heap, the buffer
+and the tables are those of before; the machine only starts unwinding). -/
+theorem finalize_again_panics_inside_callbacks (c : Cfg) (nH nW nK : Nat) (w : World) (h : Reachable c nH nW nK w)
+    (k : Nat) (ops : List Op) (x y : Id) (wc : Option Id) (top : Bool) (rest : List Frame)
+    (hs : w.stack = .script (.finAgain k :: ops) (some x) wc top :: rest) (hk : w.getH k = some y) (hfin : c.fin = true) :
+    let W := ({ w with stack := rest } : World).push (.script ops (some x) wc top)
+    execOp c W (some x) wc (.finAgain k) = W.raise ∧ W.raise.heap = w.heap ∧ W.raise.pc = w.pc ∧ W.raise.H = w.H := by
+  intro W
+  have hfl := callback_flag_up c nH nW nK w h _ x wc top rest hs
+  exact ⟨finAgain_panics_in_callbacks c W (some x) wc k y hk hfin hfl, raise_keeps_heap W⟩
 
 end RustCc.C12
